@@ -34,6 +34,8 @@ BuiltinConsts == {"pi", "pi_u", "euler", "euler_u", "tau", "tau_u"}
 (*   redecl, undef   counts                                                   *)
 (*   need   [kind |-> [min, max]] usage-rule diagnostics required so far      *)
 (*   shape  stack of statement-kind lists (AsgShape)                          *)
+(* ctrl / negctrl add control qubits to a call: C13 leaves the qubit count of such calls open (either answer is allowed) *)
+Controlled(md) == md \in {"ctrl", "inv+ctrl", "ctrl+inv", "negctrl+pow", "pow+negctrl+inv"}
 Kinds13 == {"NumGateParamsError", "NumGateQubitsError", "MutateConstError", "NotInGlobalScopeError",
             "ReturnInGlobalScopeError", "IncompatibleTypesError"}
 Zero == [k \in Kinds13 |-> [min |-> 0, max |-> 0]]
@@ -140,7 +142,8 @@ Step(s, ins, i) ==
              s3 == CASE b.ord = -1 -> s2
                      [] b.cls = "gate" ->
                           [s2 EXCEPT !.need = AddN(AddN(@, "NumGateParamsError", IF b.np # ins.np THEN 1 ELSE 0, IF b.np # ins.np THEN 1 ELSE 0),
-                                                   "NumGateQubitsError", IF b.nq # Len(ins.qs) THEN 1 ELSE 0, IF b.nq # Len(ins.qs) THEN 1 ELSE 0)]
+                                                   "NumGateQubitsError", IF b.nq # Len(ins.qs) /\ ~Controlled(ins.mod) THEN 1 ELSE 0,
+                                                   IF b.nq # Len(ins.qs) \/ Controlled(ins.mod) THEN 1 ELSE 0)]
                      [] OTHER -> [s2 EXCEPT !.need = AddN(@, "IncompatibleTypesError", 1, 1)]  \* calling a name that is not a gate
          IN CloseSingles(PushKind(s3, "gatecall"))
     [] ins.op = "use" -> CloseSingles(PushKind(Use(s, ins.n), "exprstmt"))
@@ -163,6 +166,9 @@ Step(s, ins, i) ==
     [] ins.op = "annot" -> [s EXCEPT !.pendingAnnot = TRUE]
     [] ins.op = "std" -> DeclareStd(s, 1)
     [] ins.op \in {"if", "while"} -> Open(Use(s, ins.c), ins, i, ins.op)
+    (* switch: the control expression is used in the enclosing scope; every case / default block is a scope of its own *)
+    [] ins.op = "switch" -> Open(Use(s, ins.c), ins, i, "switch")
+    [] ins.op \in {"case", "default"} -> Open(s, ins, i, ins.op)
     [] ins.op = "else" ->
          (* the else branch belongs to the if statement that was just completed: re-open it *)
          LET cur == s.shape[Len(s.shape)]
